@@ -144,7 +144,17 @@ def run_case(spec, ctx, R):
     rng = gen.rng_for(spec["seed"], "c13", spec["idx"])
     solver = spec["solver"]
     orientation = "wide" if solver == "rsp_row" else ("tall" if solver != "rsp_compute" else ("wide" if spec["idx"] % 2 else "tall"))
+    force_hybrid6 = solver == "hybrid" and spec["idx"] % 4 == 0
+    if force_hybrid6:
+        # the block size equals the width of the solver's internal test sketch (min(6, n)) on a matrix with more columns
+        spec = dict(spec, maxd=max(spec["maxd"], 9))
     A, Ap, s, kap = _matrix(rng, spec, orientation)
+    if force_hybrid6:
+        n7 = int(rng.integers(7, 10)); m7 = n7 + int(rng.integers(0, 4))
+        s = np.geomspace(float(rng.choice([3.0, 30.0])), 1.0, n7)
+        A, U7, V7 = refq.with_singular_values(rng, m7, n7, s)
+        Ap = refq.matmul(V7[:, :n7] * (1.0 / s)[None, :], refq.herm(U7[:, :n7]))
+        kap = float(s[0] / s[-1])
     A = gen.vary(A, spec["idx"])
     m, n = A.shape
     N = min(m, n)
@@ -156,7 +166,7 @@ def run_case(spec, ctx, R):
                "seed_via": str(rng.choice(["global", "constructor"])),
                "column_solver": "spd" if solver == "rsp_column_spd" else ("qr" if solver != "rsp_compute" else str(rng.choice(["qr", "spd"])))}
     elif solver == "hybrid":
-        cfg = {"r": int(rng.integers(1, N + 1)), "p": int(rng.choice([2, 3, 4, 8])), "T": int(rng.choice([1, 5])), "tol": tol,
+        cfg = {"r": (6 if force_hybrid6 else int(rng.integers(1, N + 1))), "p": int(rng.choice([2, 3, 4, 8])), "T": int(rng.choice([1, 5])), "tol": tol,
                "max_iter": int(rng.choice([1, 2, 3, 5, 8, 12, 20, 40, 200])), "column_solver": str(rng.choice(["qr", "spd"]))}
     else:
         cfg = {"tol": tol, "max_iter": int(rng.choice([1, 2, 3, 4, 5, 6, 8, 10, 12, 16, 24, 500, 500, 500, 500])), "preconditioner_rank": int(rng.choice([0, 0, max(1, N // 2)]))}
@@ -192,7 +202,7 @@ def run_case(spec, ctx, R):
                 row = (solver == "rsp_row") or (solver == "rsp_compute" and m < n)
                 ssk = cfg["test_sketch_size"]
             elif solver == "hybrid":
-                X, info = S.HybridRSPNewtonSchulz(**cfg, **({"seed": sd} if spec["idx"] % 2 else {})).compute(A)
+                X, info = S.HybridRSPNewtonSchulz(**cfg, **({"seed": sd} if (spec["idx"] % 2 or force_hybrid6) else {})).compute(A)
                 row, ssk = False, min(6, n)
             else:
                 X, info = S.CGNEQSolver(**cfg).compute(A)
